@@ -600,6 +600,53 @@ def design_counterexample(ctx, cfg, inv):
     return len(re.findall(r'^State \d+:', r['out'], re.M))
 
 
+APALACHE_OBLIGATIONS = [
+    # (name, arguments, expected outcome)
+    ('Init => IndInv', ['--init=Init', '--inv=IndInv', '--length=0'], 'NoError'),
+    ('IndInv /\\ Next => IndInv\'', ['--init=IndInit', '--inv=IndInv', '--length=1'], 'NoError'),
+    ('IndInv => NeverLost', ['--init=IndInit', '--inv=NeverLost', '--length=0'], 'NoError'),
+    ('guard: IndInit reaches the write loop (must be violated)', ['--init=IndInit', '--inv=NotWriting', '--length=0'], 'Error'),
+    ('guard: IndInit reaches the restore step (must be violated)', ['--init=IndInit', '--inv=NotRestoring', '--length=0'], 'Error'),
+    ('guard: backup removed while writing breaks the step (must be violated)',
+     ['--init=IndInit', '--next=WrongNext', '--inv=IndInv', '--length=1'], 'Error'),
+    ('guard: truncating in place without backup breaks the step (must be violated)',
+     ['--init=IndInit', '--next=WrongNext2', '--inv=IndInv', '--length=1'], 'Error'),
+]
+
+
+def unbounded_argument(ctx):
+    """Optional stage (thorough): Apalache proves NeverLost for the per-file protocol with uninterpreted contents and an
+    arbitrary number of write chunks by an inductive invariant (spec/CliFsTyped.tla).  Recorded in the evidence only:
+    a missing tool, a timeout or any other outcome is a note, never a verdict and never an exit status."""
+    import time
+    res = dict(tool='apalache-mc', spec='spec/CliFsTyped.tla', obligations=[], proved=False)
+    exe = shutil.which('apalache-mc')
+    if exe is None:
+        res['note'] = 'apalache-mc not on PATH: stage skipped'
+        return res
+    d = os.path.dirname(ctx.path('apalache', 'x'))
+    shutil.copy(os.path.join(vlib.SPEC, 'CliFsTyped.tla'), d)
+    ok = True
+    for name, args, expect in APALACHE_OBLIGATIONS:
+        t0 = time.time()
+        try:
+            r = subprocess.run(['timeout', '600', exe, 'check', '--cinit=ConstInit'] + args + ['--out-dir=' + os.path.join(d, 'out'), 'CliFsTyped.tla'],
+                               cwd=d, capture_output=True, text=True, timeout=660)
+            m = re.search(r'The outcome is: (\w+)', r.stdout + r.stderr)
+            outcome = m.group(1) if m else ('timeout' if r.returncode == 124 else 'no outcome (exit %d)' % r.returncode)
+        except subprocess.TimeoutExpired:
+            outcome = 'timeout'
+        except OSError as e:
+            outcome = 'not runnable: %s' % e
+        res['obligations'].append(dict(obligation=name, expected=expect, outcome=outcome, wall_s=round(time.time() - t0, 1)))
+        ok = ok and outcome == expect
+    res['proved'] = ok
+    if not ok:
+        res['note'] = 'not all obligations had the expected outcome: the unbounded argument is NOT claimed by this run'
+        vlib.log('C20 unbounded argument (Apalache) incomplete:', json.dumps(res['obligations']))
+    return res
+
+
 def ident(sc, inject):
     return dict(c19.ident(sc), inject=list(inject))
 
@@ -612,6 +659,11 @@ def run(ctx):
     if not quick:
         # three parallel workers over three tasks (fault-free, invariants only)
         vlib.tlc_mc(ctx, 'CliFs', 'CliFs_w3.cfg', workers=min(8, vlib.JOBS), heap='4g', timeout=3000)
+    if not quick:
+        ctx.coverage['unbounded_argument'] = unbounded_argument(ctx)
+        if ctx.coverage['unbounded_argument'].get('proved'):
+            ctx.assumptions.append('additional argument (not deciding): Apalache 0.58 proves IndInv inductive and IndInv => NeverLost for the '
+                                   'single-file protocol with uninterpreted contents and any number of write chunks (spec/CliFsTyped.tla)')
     c19.tick(ctx, 'design model checked')
     # wrong designs must be found wrong (vacuity guards), and the design-level witness of the open finding
     ctx.coverage['design_counterexamples'] = dict(
@@ -803,7 +855,7 @@ META = dict(
          'the run is really killed (SIGKILL injected at each boundary) or made to fail (ENOSPC/EACCES/EIO injected) and the tree left '
          'on disk is judged by the same predicates and compared with the model state.',
     design_ref='DESIGN.md section 4, C20 and Appendix A.3',
-    note='Trusted: TLC, strace decoding, Linux ptrace kill-at-entry semantics. Parallel directory runs are killed at per-thread '
+    note='Thorough tier, optional and not deciding: Apalache proves an inductive invariant implying NeverLost for the single-file protocol with uninterpreted contents and any number of write chunks (spec/CliFsTyped.tla; outcome recorded under coverage.unbounded_argument). Trusted: TLC, strace decoding, Linux ptrace kill-at-entry semantics. Parallel directory runs are killed at per-thread '
          'ordinals (strace counts per thread), sequential shapes at every boundary. Single torn writes and power loss are out of reach.',
     technique='TLA+ design model with crash action + trace validation of strace logs + SIGKILL/errno injection at every syscall boundary',
 )
